@@ -233,6 +233,10 @@ func CloneAlloc(a channel.Allocation) channel.Allocation {
 	return c
 }
 
+// CloneState is the harness's own deep copy of a state (independent of the
+// library's Clone methods).
+func CloneState(s *channel.State) *channel.State { return cloneState(s) }
+
 // ValidSuccessor derives a valid successor of cur for the given app kind.
 // final asks for a final state.
 func ValidSuccessor(r *kernel.Rand, cur *channel.State, n int, appKind int, final bool) Succ {
